@@ -1,5 +1,5 @@
 #!/usr/bin/env python3
-"""Rewrites the '## 9.' section of DESIGN.md from seeded/*/meta.json."""
+"""Rewrites the '## 9.' and '## 10.' sections of DESIGN.md from seeded/*/meta.json and mutations/RESULTS.md."""
 import json, glob, os, re
 root = os.path.dirname(os.path.dirname(os.path.abspath(__file__)))
 rows = []
@@ -12,6 +12,53 @@ for d in sorted(glob.glob(os.path.join(root, "seeded", "C*-*")) + glob.glob(os.p
     first = tr[0]["result"].split(" ")[0] if tr else "?"
     final = "; ".join(f"{t['check']}/{t['tier']}: {t['result']}" for t in tr).replace("|", "\\|")
     rows.append(f"| {name} | {summ} | {first} | {final} |")
+def tally(prefix):
+    tot = first_ok = final_ok = 0
+    for d in sorted(glob.glob(os.path.join(root, "seeded", prefix))):
+        tr = json.load(open(os.path.join(d, "meta.json"))).get("trials", [])
+        tot += 1
+        first_ok += bool(tr) and tr[0]["result"].startswith("CAUGHT")
+        final_ok += any(t["result"].startswith("CAUGHT") for t in tr)
+    return tot, first_ok, final_ok
+r1, r2 = tally("C*-*"), tally("R2-C*-*")
+summary = f"""Round 1 (`C??-n`, two changes per property, free choice of defect): {r1[0]} changes, {r1[1]} caught at the
+first trial, {r1[2]} caught after strengthening. Round 2 (`R2-C??-n`, two more per property; the agents were
+asked for defects that need *scale, a long history or an unusual-but-legal input* to manifest, because
+round 1 showed that was where the checks were thin): {r2[0]} changes, {r2[1]} caught at the first trial,
+{r2[2]} caught after strengthening. Every miss was a generator-reach problem (sizes, depths, lengths,
+histories), never an oracle problem; each strengthening widened the generated domain and was followed
+by a multi-seed silence run on the unchanged tree.
+
+"""
+mut = ""
+mp = os.path.join(root, "mutations", "RESULTS.md")
+if os.path.exists(mp):
+    last = {}
+    for l in open(mp).read().splitlines()[2:]:
+        cells = [c.strip() for c in l.strip().strip("|").split("|")]
+        if len(cells) >= 4:
+            name = cells[0]
+            hist = last.get(name, (cells[1], cells[2], []))
+            hist[2].append("CAUGHT" if cells[3].startswith("CAUGHT") else "MISSED")
+            last[name] = hist
+    mrows = [f"| {n} | {v[0]} | {'passes' if v[1] == 'BASELINE OK' else 'fails (the suite notices)'} | {' -> '.join(v[2])} |" for n, v in sorted(last.items())]
+    ok_first = sum(1 for v in last.values() if v[2][0] == "CAUGHT")
+    ok_final = sum(1 for v in last.values() if v[2][-1] == "CAUGHT")
+    mut = f"""## 10. Own mutation trials
+
+`scripts/make_mutations.py` writes {len(last)} hand-made one-idea mutations of `/repo` (`mutations/<name>/patch.diff`),
+`scripts/run_mutations.sh` applies each, runs the repository's own suite (`scripts/baseline.sh`) and the
+quick tier of the owning check, and always reverts. They complement §9: they are *my* guesses at
+plausible slips (swapped operands, dropped special case, first-match-only, prefix instead of equality),
+so they measure sensitivity, not independence. {ok_first} of {len(last)} were caught at the first run,
+{ok_final} after two generators were widened (C02: URL universe now contains `% _ - = & :` next to
+separators; C20: 1 case in 25 has 40-540 rules). Mutations the repository's own suite already notices
+are kept for completeness; the ones marked "passes" are the realistic kind.
+
+| mutation | property | repo suite with the mutation | quick check (history) |
+|---|---|---|---|
+""" + "\n".join(mrows) + "\n\n"
+
 sec = """## 9. Independently seeded changes and which checks catch them
 
 Fresh sub-agents, given only the text of one property and a scratch worktree, each wrote
@@ -21,9 +68,9 @@ Every change was re-confirmed here (`scripts/verify_seeded.sh`), archived under 
 check. "first" is the outcome of the *first* trial, before any strengthening; the last column is the
 full trial history. Checks were strengthened wherever a change was missed (never loosened).
 
-| change | what it does | first | trials |
+""" + summary + """| change | what it does | first | trials |
 |---|---|---|---|
-""" + "\n".join(rows) + "\n\n"
+""" + "\n".join(rows) + "\n\n" + mut
 p = os.path.join(root, "DESIGN.md")
 s = open(p).read()
 if "## 9. Independently seeded changes" in s:
